@@ -9,7 +9,7 @@
     src/wlearner/stump.cpp:13-17, 42-88        ::score, cache_t::clear/score  -> `sideScore`, `present`, `missRss`, `stumpCand`
     src/wlearner/stump.cpp:128-160             the sorted sweep of do_fit     -> `sweep`, `stumpCands`
     src/wlearner/hinge.cpp:14-30, 98-140       ::beta, ::score, score_neg/pos -> `hingeBeta`, `hingeSide`, `hingeCands`
-    src/wlearner/affine.cpp:27-52, 82-104      w, b, rss_affine, score        -> `affineCand`
+    src/wlearner/affine.cpp:27-70, 100-122     constant, w, b, rss_affine     -> `affineConst`, `affineW`, `affineB`, `affineCand`
     src/wlearner/table.cpp:52-86, 154-181      score, score_dense, update     -> `binMom`, `binScore`, `denseCand`
     src/wlearner/table.cpp:88-124              score_kbest(…, 1) (dstep)      -> `dstepCand`
     src/dataset/hash.cpp:17-43, core/hash.h    make_hashes, hash, find        -> `hashesOf`, `hashBits`, `findHash`
@@ -28,10 +28,9 @@
   * A missing feature value (NaN for scalars, label −1 / first indicator −1 for categorical features) is `none`.
   * `std::sort` is a parameter `sort` (any sorted permutation, `SortSpec` in the proofs); the driver uses
     `List.mergeSort` with the order of `std::pair<scalar, index>`.
-  * IEEE division by a zero denominator makes the affine score non-finite, which `std::isfinite(score)` rejects: the model
-    states this branch explicitly (`affineCand` returns `none` when `x2·x0 − x1² = 0`), so that the totalised field
-    division `x / 0 = 0` is never used by a theorem. The sweep denominators (`x0_neg`, `x0_pos`, the hinge's `Σ(x−t)²`,
-    a bin's count) are positive in exact arithmetic (proved, not assumed).
+  * No theorem relies on the totalised field division `x / 0 = 0`: the affine closed form is only used on the branch
+    `x2·x0 − x1² > ε₁·x2·x0` of `cache_t::constant()` (where the denominator is positive), the sweep denominators
+    (`x0_neg`, `x0_pos`, the hinge's `Σ(x−t)²`, a bin's count) are positive in exact arithmetic (proved, not assumed).
 -/
 namespace NanoVerif.WLearner
 
@@ -112,7 +111,7 @@ structure Node (α : Type) where
   feature : Nat
   thr : α
   next : Nat
-  table : Nat
+  table : Int
 
 /-- the fitted weak learners (`tables` = `m_tables`, one vector per row) -/
 inductive Learner (α : Type) where
@@ -137,9 +136,22 @@ def insertUniq (h : Nat) : List Nat → List Nat
   | [] => [h]
   | a :: as => if h < a then h :: a :: as else if h = a then a :: as else a :: insertUniq h as
 
-/-- `nano::find(hashes, value)` -/
+/-- `std::lower_bound(begin, end, hash)` as libstdc++ runs it (bisection on `[first, first + len)`); on a list that is
+    not sorted it still returns what the bisection returns -/
+def lowerBound (l : List Nat) (h : Nat) : Nat → Nat → Nat → Nat
+  | 0, first, _ => first
+  | fuel + 1, first, len =>
+    if len = 0 then first
+    else
+      let half := len / 2
+      let mid := first + half
+      if l.getD mid 0 < h then lowerBound l h fuel (mid + 1) (len - half - 1)
+      else lowerBound l h fuel first half
+
+/-- `nano::find(hashes, value)`: `(it == end || *it != hash) ? -1 : distance(begin, it)` -/
 def findHash (hashes : List Nat) (h : Nat) : Option Nat :=
-  hashes.findIdx? (· == h)
+  let i := lowerBound hashes h hashes.length 0 hashes.length
+  if hashes[i]? = some h then some i else none
 
 section
 variable {α : Type} [Add α] [Sub α] [Mul α] [Div α] [Neg α] [LT α] [DecidableLT α] [OfNat α 0] [OfNat α 1]
@@ -300,25 +312,37 @@ def missedMom (rows : List (Row α)) : Mom α :=
     | some _ => m) Mom.zero
 
 def affineDen (m : Mom α) : α := m.x2 * m.x0 - m.x1 * m.x1
-def affineW (m : Mom α) : Vec α := fun o => (m.rx o * m.x0 - m.r1 o * m.x1) / affineDen m
-def affineB (m : Mom α) : Vec α := fun o => (m.r1 o * m.x2 - m.rx o * m.x1) / affineDen m
+
+/-- `cache_t::constant()`: `!(x0x2 - x1·x1 > epsilon1 · x0x2)` with `x0x2 = x2·x0` — the normal equations are
+    (numerically) singular, the feature is treated as constant over the fitted samples (also when no value is present) -/
+def affineConst (eps1 : α) (m : Mom α) : Bool :=
+  !decide (eps1 * (m.x2 * m.x0) < m.x2 * m.x0 - m.x1 * m.x1)
+
+/-- `fit_constant(bin)`: `r1 / std::max(1.0, x0)` -/
+def fitConstant (m : Mom α) : Vec α := fun o => m.r1 o / cmax 1 m.x0
+
+/-- `cache_t::w()` -/
+def affineW (eps1 : α) (m : Mom α) : Vec α :=
+  if affineConst eps1 m then zeroV else fun o => (m.rx o * m.x0 - m.r1 o * m.x1) / affineDen m
+
+/-- `cache_t::b()` -/
+def affineB (eps1 : α) (m : Mom α) : Vec α :=
+  if affineConst eps1 m then fitConstant m else fun o => (m.r1 o * m.x2 - m.rx o * m.x1) / affineDen m
 
 /-- `rss_affine()` -/
 def affineRss (T : Nat) (m : Mom α) (w b : Vec α) : α :=
   vsum (fun o => m.r2 o + w o * w o * m.x2 + b o * b o * m.x0 - two * w o * m.rx o - two * b o * m.r1 o
     + two * w o * b o * m.x1) T
 
-/-- the candidate of one scalar feature; `none` = the division by `x2·x0 − x1² = 0` (non-finite score, rejected) -/
-def affineCand (T : Nat) (K : α) (crit : Crit) (f : Nat) (rows : List (Row α)) : Option (Cand α) :=
+/-- the candidate of one scalar feature (`eps1` = `epsilon1<scalar_t>()`) -/
+def affineCand (eps1 : α) (T : Nat) (K : α) (crit : Crit) (f : Nat) (rows : List (Row α)) : Cand α :=
   let m := (present rows).foldl Item.upd Mom.zero
   let ms := missedMom rows
-  if affineDen m < 0 ∨ 0 < affineDen m then
-    let w := affineW m
-    let b := affineB m
-    let rss := affineRss T m w b + vsum ms.r2 T
-    some { score := makeScore K crit rss (2 * T) (m.n + ms.n), rss := rss, feature := f, thr := 0, dir := 0,
-           hashes := [], h2t := [], tables := [w, b] }
-  else none
+  let w := affineW eps1 m
+  let b := affineB eps1 m
+  let rss := affineRss T m w b + vsum ms.r2 T
+  { score := makeScore K crit rss (2 * T) (m.n + ms.n), rss := rss, feature := f, thr := 0, dir := 0,
+    hashes := [], h2t := [], tables := [w, b] }
 
 /-! ### look-up tables — src/wlearner/table.cpp -/
 
@@ -425,7 +449,7 @@ def dtreeGroup (nodes : List (Node α)) (s : Nat → FVal α) : Nat → Nat → 
       match s nd.feature with
       | .num v =>
         let g := if v < nd.thr then 0 else 1
-        if nd.next = 0 then some (nd.table + g)
+        if nd.next = 0 then some (nd.table.toNat + g)
         else match nodes[i + g]? with
           | some nd' => dtreeGroup nodes s fuel nd'.next
           | none => none
